@@ -4,6 +4,12 @@
 CHECKS = {
     "C06": {"quick": [("bc", 12000)], "thorough": [("bc", 400000)]},
     "C10": {"quick": [("bc", 12000)], "thorough": [("bc", 400000)]},
+    "C01": {"quick": [("pr", 6000)], "thorough": [("pr", 150000)]},
+    "C09": {"quick": [("pr", 6000)], "thorough": [("pr", 150000)]},
+    "C19": {"quick": [("pr", 6000)], "thorough": [("pr", 150000)]},
+    "C04": {"quick": [("pr", 6000)], "thorough": [("pr", 100000)]},
+    "C18": {"quick": [("pr", 6000)], "thorough": [("pr", 150000)]},
+    "C08": {"quick": [("pr", 6000)], "thorough": [("pr", 100000)]},
 }
 
 REAL_VS_STUB = {
